@@ -182,6 +182,8 @@ def finish(ctx, t0, level, floor, explanation, assumptions, trusted_base, extra_
         'rules_applied': sorted(set(o.rule for o in ctx.obs)),
         'notes': ctx.notes,
     }
+    if getattr(F, 'renames', None):
+        cov['renames_recognised'] = F.renames      # current name -> name in rules/registry.json (same type / signature, unique)
     if ctx.info:
         cov['info'] = ctx.info
     if extra_cov:
